@@ -234,6 +234,30 @@ pub fn exec_oracle(kind: &str, fields: &[&str]) -> String {
                 }
             })
         }
+        "S_C16I" => {
+            // whole-number parameters parse to exactly the value written, or are refused: the reference is the reading of
+            // the text as an `i64` / `usize`, nothing in between (no detour through a float)
+            let (key, text) = (fields[0], unescape(fields[1]));
+            let spec = crate::exec::CtxSpec { kind: "default".to_string(), resources: vec![], users: vec![("probe".to_string(), "u:probe".to_string())] };
+            crate::exec::with_ctx(&spec, |ctx| {
+                let r = ctx.op(&format!("probe {key}={text}"));
+                let want_i = text.trim().parse::<i64>().ok();
+                let want_n = text.trim().parse::<usize>().ok();
+                match (key, r) {
+                    ("integer", Ok(op)) => match (want_i, ctx.params(op, 0).ok().and_then(|p| p.integer("integer").ok())) {
+                        (Some(w), Some(g)) if w == g => "oracle pass".to_string(),
+                        (w, g) => format!("oracle FAIL integer={text} is accepted as {g:?}, the text says {w:?}"),
+                    },
+                    ("integer", Err(_)) => if want_i.is_none() || text.trim() != text || text.starts_with('+') { "oracle pass refused".to_string() } else { format!("oracle FAIL integer={text} is refused") },
+                    ("natural", Ok(op)) => match (want_n, ctx.params(op, 0).ok().and_then(|p| p.natural("natural").ok())) {
+                        (Some(w), Some(g)) if w == g => "oracle pass".to_string(),
+                        (w, g) => format!("oracle FAIL natural={text} is accepted as {g:?}, the text says {w:?}"),
+                    },
+                    ("natural", Err(_)) => if want_n.is_none() || text.trim() != text || text.starts_with('+') { "oracle pass refused".to_string() } else { format!("oracle FAIL natural={text} is refused") },
+                    _ => "bad-case".to_string(),
+                }
+            })
+        }
         "S_INVMOD" => {
             // the `inv` modifier, behind or in front of the operator's name, exchanges the two directions of the
             // operator - whatever the operator: `def inv` forward is `def` inverse, and the other way round
@@ -964,6 +988,14 @@ fn oracle_c07(fields: &[&str]) -> String {
     for (a, b) in data.iter().zip(out.iter()) {
         if a[3].to_bits() != b[3].to_bits() {
             return "oracle FAIL fourth coordinate changed".to_string();
+        }
+    }
+    // ... in the inverse direction too
+    if let Ok((_, back)) = apply_def(&def, Inv, &data) {
+        for (a, b) in data.iter().zip(back.iter()) {
+            if a[3].to_bits() != b[3].to_bits() && !(a[3].is_nan() && b[3].is_nan()) {
+                return format!("oracle FAIL fourth coordinate changed by the inverse direction: {} became {} ({def})", a[3], b[3]);
+            }
         }
     }
     // (3) every tuple transformed at its own epoch: reference per EPSG guidance note 7-2
@@ -4041,6 +4073,9 @@ fn oracle_c06(fields: &[&str]) -> String {
                 ("e = sqrt(e^2)", e.eccentricity(), es.sqrt()),
                 ("e'^2 = e^2/(1-e^2)", e.second_eccentricity_squared(), es / (1.0 - es)),
                 ("e'^2 = (a^2-b^2)/b^2", e.second_eccentricity_squared(), (a * a - b * b) / (b * b)),
+                ("e' = sqrt(e'^2)", e.second_eccentricity(), (es / (1.0 - es)).sqrt()),
+                ("e' = e a/b", e.second_eccentricity() * b, e.eccentricity() * a),
+                ("rectifying radius", e.rectifying_radius(), e.meridian_quadrant() / std::f64::consts::FRAC_PI_2),
                 ("n = (a-b)/(a+b)", e.third_flattening(), (a - b) / (a + b)),
                 ("f' = (a-b)/b", e.second_flattening(), (a - b) / b),
                 ("a/b", e.aspect_ratio(), a / b),
